@@ -534,7 +534,7 @@ pub mod backend {
             let lives = vec![case.reqs.clone()];
             let r = if self.lmdb {
                 crate::c07::backend::run_lives_with::<LmdbStorage, _, _>(
-                    &lives,
+                    &lives, &[],
                     &dir,
                     |d| async move { LmdbStorage::open(&d).await.map_err(|e| e.to_string()) },
                     |s: &LmdbStorage| Some(s.handle().env().clone()),
@@ -542,7 +542,7 @@ pub mod backend {
                 )
             } else {
                 crate::c07::backend::run_lives_with::<SqliteStorage, _, _>(
-                    &lives,
+                    &lives, &[],
                     &dir,
                     |d| async move { SqliteStorage::open(format!("{d}/db.sqlite")).await.map_err(|e| e.to_string()) },
                     |_| None,
@@ -676,7 +676,7 @@ pub mod backend {
                 }
             }
             let r = crate::c07::backend::run_lives_with::<LmdbStorage, _, _>(
-                &lives,
+                &lives, &[],
                 &dir,
                 |d| async move { LmdbStorage::open(&d).await.map_err(|e| e.to_string()) },
                 |s: &LmdbStorage| Some(s.handle().env().clone()),
